@@ -910,7 +910,8 @@ fn copy_db_files(src: &str, dst: &str) -> std::io::Result<()> {
         let ent = ent?;
         let name = ent.file_name().to_string_lossy().to_string();
         if name == "meta" || name == "ln" || name == "bbn" || name == "ht" || name == "wal" || name.starts_with("rollback.") {
-            std::fs::copy(ent.path(), format!("{dst}/{name}"))?;
+            // zero pages become holes: the hash table file is mostly empty and tmpfs copies count as memory
+            crate::image::sparse_copy(&ent.path(), std::path::Path::new(&format!("{dst}/{name}")))?;
         }
     }
     Ok(())
